@@ -78,7 +78,7 @@ theorem mainStep_inv11 {c : Ctl.State (Load.State Ï„) Ï„} {k : Nat} {w w' : Wk Ï
   | collect =>
     simp only [hph] at hm
     cases p with
-    | collect errs garbage =>
+    | collect errs garbage intr sf0 =>
       simp only at hm
       split at hm
       Â· simp only [Option.some.injEq] at hm
